@@ -225,7 +225,7 @@ def main(argv):
         # ---- workload ------------------------------------------------------
         nprog = 30 if tier == "quick" else 150
         nplans = 10 if tier == "quick" else 24
-        ngen = 12 if tier == "quick" else 120
+        ngen = 15 if tier == "quick" else 120
         cs = worlds.corpus(max_bytes=8000)
         rng0 = vsim.Rng(seed, "c08-programs")
         rng0.shuffle(cs)
@@ -240,7 +240,10 @@ def main(argv):
         for n, pth, sz in cs[:nprog * 3]:
             cands.append((n, open(pth, "rb").read(), "corpus"))
         for g in range(ngen):
-            src = progen.gen_program(vsim.Rng(seed, "c08-gen", g), size="small", force=("tokens",) if g % 2 == 0 else ())
+            # every block kind appears in some program of every tier: two kinds per program, by rotation
+            rot = [b[0] for b in progen.BLOCKS if b[2] > 0]
+            src = progen.gen_program(vsim.Rng(seed, "c08-gen", g), size="small",
+                                     force=(rot[(2 * g) % len(rot)], rot[(2 * g + 1) % len(rot)]))
             cands.append(("gen%03d.as" % g, src.encode("latin-1"), "generated"))
         # ill-typed variants of generated programs: the diagnostics (lists of candidate meanings and
         # types, their order and positions) are outputs too
